@@ -5,7 +5,7 @@ SPEC = dict(
     model="Model.C29_Wire Model.C29",
     rule="requests sent through a live single-node Store with every API that writes a command (Execute, Query at level strong, Request, Load, Noop) plus load chunks "
          "through command.MarshalLoadChunkRequest; hand-picked: 511/512/513 statements and 4095/4096/4097 bytes of compressible and incompressible SQL at the default "
-         "thresholds, every parameter kind, forced compression, zero thresholds, requests whose gzip output is exactly one byte shorter than / as long as / one byte longer than their encoding; generated: 0-10 statements with SQL lengths just below/at/above the size threshold, "
+         "thresholds, every parameter kind, forced compression, zero thresholds, batches of 2-8 distinct really-compressed requests (and load requests) that are ALL marshalled before any result is wrapped and decoded (8 / 200 batches), 8 goroutines x 40 (thorough 6 runs x 8 x 150) concurrent compressed Execute/Query/Request calls whose log entries must be exactly the requests sent, requests whose gzip output is exactly one byte shorter than / as long as / one byte longer than their encoding; generated: 0-10 statements with SQL lengths just below/at/above the size threshold, "
          "statement counts just below/at/above the batch threshold (thresholds 3-8 statements / 24-200 bytes so that both are crossed often), parameters of all five "
          "kinds plus unset (int64 extremes, NaN/-0/inf doubles, empty and non-UTF-8 blobs, multi-byte names), all flags, int64 extremes in timeouts.  A case is "
          "non-trivial when a statement count or an SQL length is within 2 of its threshold or the request carries every parameter kind; distinct by type, thresholds and request bytes",
@@ -16,12 +16,12 @@ SPEC = dict(
              "and the model's decoder must read every real log entry back; messages outside the generated ones rely on the wire model being the proto3 encoding",
              "strings are byte lists: proto3's UTF-8 validation of string fields (Marshal fails on invalid UTF-8 in SQL/names) is outside the model; the driver generates valid UTF-8",
              "raft log store: the driver reads the entry back with raftLog.GetLog"],
-    assumptions=["gunzip (gzip b) = Some b", "wf_body: int64 fields within 64 bits, doubles as 64-bit patterns (typing constraints of the Go structs)",
+    assumptions=["gunzip (gzip b) = Some b", "marshalling is a function of configuration and request (no state shared between calls): a modelling assumption, tied by the held-result and concurrent cases", "wf_body: int64 fields within 64 bits, doubles as 64-bit patterns (typing constraints of the Go structs)",
                  "Go's deterministic field order for these messages: plain fields by number, then the set oneof member (checked byte-for-byte by the tie)"],
     level_text="C29_roundtrip: for every marshaler configuration and every well-typed request of every command type (query, execute, execute-query, load, load-chunk, noop), "
                "unmarshal (marshal r) = Some r with the proto3 wire codec modelled in Gallina (C29_wire_codec_body / C29_wire_codec_command: decode (encode m) = Some m, varints of any size, "
                "zig-zag, two's complement, fixed64, nested length-delimited messages, oneof) - only gzip is a premise; C29_roundtrip_any_codec: the same for any codec satisfying the "
-               "inversion law; C29_decision_spec (iff) and C29_compressed_only_if_smaller_or_forced for every codec and gzip.  The model pipeline with the wire codec is run on every driver case.",
+               "inversion law; C29_decision_spec (iff) and C29_compressed_only_if_smaller_or_forced for every codec and gzip; C29_marshal_results_independent: a batch marshalled before any result is used yields each request's own result and decodes to it.  The model pipeline with the wire codec is run on every driver case.",
     level_note="Model = RequestMarshaler.Marshal + the Command construction of Store.execute/Query/Request/load/Noop + CommandProcessor.Process decoding + proto3 wire format of "
                "Command/QueryRequest/ExecuteRequest/ExecuteQueryRequest/LoadRequest/LoadChunkRequest/Noop/Request/Statement/Parameter; gzip a hypothesis.",
     technique="Coq proof of codec inversion (generic field parser + per-message folds) and of the marshal pipeline + byte-for-byte differential run against the real store's log entries",
